@@ -2,6 +2,7 @@ package props
 
 import (
 	"container/list"
+	"context"
 	"encoding/json"
 	"fmt"
 	"os"
@@ -11,6 +12,7 @@ import (
 	"sort"
 	"strconv"
 	"sync"
+	"time"
 	"unsafe"
 
 	updogv1 "github.com/akrennmair/updog/proto/updog/v1"
@@ -96,6 +98,11 @@ func c04Threads(s string) [][]c03Query {
 		// a grouped query; the two grouped queries use ONE group-by slice (a caller may share what Execute only reads)
 		bad := model.And(a, model.Or(model.Eq("nosuch", "1"), b))
 		return [][]c03Query{{q(bad), {Expr: model.Or(a, b), GroupBy: []string{"b", "c", "b"}}}, {q(bad), {Expr: model.Not(a), GroupBy: []string{"b", "c", "b"}}}}
+	case "S8": // ONE expression object (an operator tree) in two Query values executed at the same time: grouped by the
+		// columns b, c in one thread and by the single (unknown) column "b,c" in the other: the second must fail, the
+		// first must not care, and Execute must not write to the tree it is given
+		shared := model.Or(model.And(a, model.Not(b)), model.Not(c))
+		return [][]c03Query{{{Expr: shared, GroupBy: []string{"b", "c"}}}, {{Expr: shared, GroupBy: []string{"b,c"}}, {Expr: shared, GroupBy: []string{"c"}}}}
 	case "S3": // two Executes and a schema read
 		return [][]c03Query{{q(model.Not(model.Or(a, model.Eq("c", "absent"))))}, {{Expr: model.Or(a, c, model.Eq("b", "absent")), GroupBy: []string{"b"}}}, nil}
 	}
@@ -188,7 +195,11 @@ func c04Scenario(w *c04World, p c04Params, outcome *string) vsched.Scenario {
 				want[t] = append(want[t], "error")
 				continue
 			}
-			g, _ := w.data.GroupBy(sel, q.GroupBy)
+			g, gerr := w.data.GroupBy(sel, q.GroupBy)
+			if gerr != nil {
+				want[t] = append(want[t], "error")
+				continue
+			}
 			want[t] = append(want[t], fmt.Sprintf("count=%d groups=%s nil=%v", sel.Count(), groupsString(g), g == nil))
 		}
 	}
@@ -197,6 +208,10 @@ func c04Scenario(w *c04World, p c04Params, outcome *string) vsched.Scenario {
 	return func() ([]func(), func(*vsched.Result) string) {
 		c04Epoch++
 		cache := w.freshCache(p.Cache)
+		var sharedExpr updog.Expression
+		if p.Scenario == "S8" {
+			sharedExpr = al[0][0].Expr.Updog()
+		}
 		got := make([][]string, len(al))
 		var schemas [][][]string
 		var bodies []func()
@@ -215,7 +230,11 @@ func c04Scenario(w *c04World, p c04Params, outcome *string) vsched.Scenario {
 					if p.Scenario == "S7" && len(gb) > 0 {
 						gb = sharedGB
 					}
-					res, err := w.idx.Execute(&updog.Query{Expr: freshAbsent(q.Expr, c04Epoch).Updog(), GroupBy: gb})
+					ex := freshAbsent(q.Expr, c04Epoch).Updog()
+					if sharedExpr != nil {
+						ex = sharedExpr
+					}
+					res, err := w.idx.Execute(&updog.Query{Expr: ex, GroupBy: gb})
 					got[t] = append(got[t], renderResult(res, err))
 				}
 			})
@@ -583,6 +602,27 @@ func c04RaceServer(ctx *rt.Ctx) []*rt.Violation {
 			srv.query(mk(b...))
 			ctx.Cov.Add("race_server_requests", 1)
 		}
+		// (c) clients that give up early (deadlines of 0 .. 1.5 ms on an expensive batch), then the same queries with a
+		// patient client: whatever an abandoned request leaves behind must not change later answers
+		for i := 0; i < 60; i++ {
+			cctx, cancel := context.WithTimeout(context.Background(), time.Duration(i%16)*100*time.Microsecond)
+			srv.client.Query(cctx, mk(2, 1, 5, 2))
+			cancel()
+			ctx.Cov.Add("race_server_requests", 1)
+			if i%10 == 9 {
+				ids := []int{2, 1, 5}
+				resp, err := srv.query(mk(ids...))
+				if err != nil || len(resp.Results) != len(ids) {
+					errs[0] = fmt.Sprintf("after requests abandoned by their clients a patient request failed: %v", err)
+					break
+				}
+				for k, r := range resp.Results {
+					if want := expect[ids[k]]; fmt.Sprintf("%d/%d", r.TotalCount, len(r.Groups)) != want {
+						errs[0] = fmt.Sprintf("after requests abandoned by their clients, result %d is %d/%d groups, expected %s", k, r.TotalCount, len(r.Groups), want)
+					}
+				}
+			}
+		}
 		alive := srv.alive()
 		report := raced()
 		srv.stop()
@@ -601,7 +641,7 @@ func c04RaceServer(ctx *rt.Ctx) []*rt.Violation {
 			return []*rt.Violation{rt.NewViolation("C04", "race-server", fmt.Sprintf("race-server round=%d data race", round), map[string]int{"round": round}, "the race detector of the server process reported: %s", report)}
 		}
 	}
-	ctx.Cov.Note("race_server", "supplementary free-running pass (not exhaustive): real `updog server` built with -race, 3 cold starts x (4 concurrent clients x 3 grouped batches + 7 batches incl. several failing members)")
+	ctx.Cov.Note("race_server", "supplementary free-running pass (not exhaustive): real `updog server` built with -race, 3 cold starts x (4 concurrent clients x 3 grouped batches + 7 batches incl. several failing members + 60 requests whose client gives up after 0..1.5 ms, followed by patient requests)")
 	return nil
 }
 
@@ -612,13 +652,14 @@ func c04Run(ctx *rt.Ctx) []*rt.Violation {
 		b, _ := json.Marshal(e3Job{Scenario: p.Scenario, Params: pb, Bound: bound})
 		jobs = append(jobs, rt.Job{Name: fmt.Sprintf("%s-%v-%s-b%d", p.Scenario, p.Preload, p.Cache, bound), NShards: 1, Args: b})
 	}
-	bounds := map[string]int{"S1": 2, "S2": 2, "S3": 2, "S4": 3, "S4b": 2, "S5": 2, "S5b": 1, "S6": 1, "S7": 1}
+	bounds := map[string]int{"S1": 2, "S2": 2, "S3": 2, "S4": 3, "S4b": 2, "S5": 2, "S5b": 1, "S6": 1, "S7": 1, "S8": 2}
 	if ctx.Thorough() {
-		bounds = map[string]int{"S1": 4, "S2": 3, "S3": 3, "S4": 5, "S4b": 3, "S5": 3, "S5b": 2, "S6": 2, "S7": 2}
+		bounds = map[string]int{"S1": 4, "S2": 3, "S3": 3, "S4": 5, "S4b": 3, "S5": 3, "S5b": 2, "S6": 2, "S7": 2, "S8": 3}
 	}
 	for _, pre := range []bool{false, true} {
 		for _, c := range []string{"ample", "none"} {
 			add(c04Params{Scenario: "S7", Preload: pre, Cache: c}, bounds["S7"])
+			add(c04Params{Scenario: "S8", Preload: pre, Cache: c}, bounds["S8"])
 		}
 	}
 	for _, s := range []string{"S5", "S5b", "S6"} {
